@@ -2,7 +2,7 @@
 
 TRUSTED_BASE = [
     "T1 Verus 0.2026.09.13 + Z3 (and Kani 0.68 + CBMC 6.11 where a Kani obligation is listed)",
-    "T2 the extractor vx: item location, normalisations N1-N6 / N4b and the desugarings counted in desugarings_applied (R-FMT R-LOG R-ALL R-FOREACH R-ENUM R-EXTMAP R-UNDERSCORE R-MAPITER R-CONTINUE R-COLLECT R-SPAWN R-REC R-SEGMENT R-SLICE1 R-UFCS R-UTF8 R-CLOSPEC R-TAKE R-ASSERTEQ R-WHILELET R-SELF - DESIGN 3.1 and 10.5); per-item SHA-256 in functions_under_contract",
+    "T2 the extractor vx: item location, normalisations N1-N6 / N4b and the desugarings counted in desugarings_applied (R-FMT R-LOG R-ALL R-FOREACH R-ENUM R-EXTMAP R-UNDERSCORE R-MAPITER R-CONTINUE R-COLLECT R-SPAWN R-REC R-SEGMENT R-SLICE1 R-UFCS R-UTF8 R-CLOSPEC R-TAKE R-ASSERTEQ R-WHILELET R-SELF R-FLATMAP R-MAPCOLLECT - DESIGN 3.1 and 10.5); per-item SHA-256 in functions_under_contract",
     "T3 vstd specifications of core/alloc items and the assumed std specifications listed under assumptions",
     "T5 machine arithmetic is NOT treated as mathematical: Verus checks overflow on every executable operation (the two exceptions - a depth counter and a node counter in recursive functions - are listed under assumptions of the properties concerned)",
 ]
@@ -47,11 +47,12 @@ PROPS = {
     },
     "C18": {
         "verus": ["encoding_lemmas", ("verify_base", BASE_VERIFY_FNS + ["verify_label", "NodeLabel.new"]),
-                  ("verify_history", ["verify_single_update_proof"]), ("verify_lookup", ["lookup_verify"]), "vrf_labels"],
+                  ("verify_history", ["verify_single_update_proof"]), ("verify_lookup", ["lookup_verify"]), "vrf_labels",
+                  ("directory_publish", ["Directory.publish__vrf_map"])],
         "kani": ["c18"],
         "search": True,
         "scope": "partial (everything except the curve arithmetic): the node labels a publish places in the tree - VRFKeyStorage::get_node_labels, the parallel branch (tasks in a JoinSet whose "
-                 "join_next hands results out in COMPLETION order) - pair every input tuple with the VRF label of that very tuple (trait default method verified as a free function over an arbitrary implementor, R-SELF); every acceptance path of the client verifiers binds the claimed node label through verify_label to the (label, freshness, version) "
+                 "join_next hands results out in COMPLETION order) - pair every input tuple with the VRF label of that very tuple (trait default method verified as a free function over an arbitrary implementor, R-SELF), and publish keys its tuple -> node label map with exactly those pairs (segment publish__vrf_map); the VRF public-key parser refuses bytes that are not a curve point and points of small order, under which proofs for any input could be forged (Kani, curve operations as harness-controlled switches); every acceptance path of the client verifiers binds the claimed node label through verify_label to the (label, freshness, version) "
                  "it is accepted for - verify_existence / _with_val / _with_commitment / verify_nonexistence accept only with label_ok for exactly their arguments, and lookup_verify / "
                  "verify_single_update_proof (tombstoned entries under AllowMissingValues included) accept only through them; verify_label accepts iff key and proof parse, the VRF accepts the proof for the hash input of (label, freshness, version) "
                  "and the claimed node label equals the truncated VRF output with length 256 (Verus, unbounded); the hash input is be64(|label|) || label || [freshness] || be64(version) "
@@ -107,15 +108,19 @@ PROPS = {
                  "batch, exactly the leaf the statement prescribes (stale tuple -> the stale constant; fresh tuple -> the commitment to (commitment key, node label, version, value)) and records a value state with the NEXT epoch "
                  "for fresh tuples only (segment publish__build_update_set, HashMap loop through R-MAPITER, any iteration order); the tail announces current+1 only after an accepted commit and returns the current epoch "
                  "unchanged for an empty update set; batch_insert_nodes advances the epoch by exactly one and leaves the tree untouched for an empty batch; update_hash stores the parent hash of exactly the values / labels "
-                 "node_to_azks_value / node_to_label report (leaf values with their epoch); new_leaf_node stamps a leaf with its birth epoch. Not decided: the duplicate-label check and the 'same value is skipped' filter "
-                 "(closures over iterators in the head of publish; bounded check only), trie insertion.",
+                 "node_to_azks_value / node_to_label report (leaf values with their epoch); new_leaf_node stamps a leaf with its birth epoch. The head of publish (segments publish__head / publish__tuples / publish__vrf_map; iterator chains through R-MAPCOLLECT / R-FLATMAP / R-COLLECT, "
+                 "the flat_map closure hoisted verbatim): a batch that repeats a label is refused before anything is read or written; the stored versions are asked for exactly the labels of the batch as of "
+                 "the epoch of the one epoch record read, next epoch = that epoch + 1; the batch becomes the concatenation of, per (label, value): (Fresh, 1) for an unseen label, NOTHING for a label re-submitted with its current value, "
+                 "(Stale, v), (Fresh, v+1) otherwise; the tuple -> node label map holds for each tuple the VRF label of that very tuple. Not decided: trie insertion; that get_node_labels returns a pair for EVERY tuple (only that each returned pair is right).",
         "trusted": ["R-SEGMENT / R-MAPITER (vx_pop_any removes an ARBITRARY entry: every iteration order); T4 configuration hashes and the VRF as functions",
+                    "std iterator chains as loops: iter().map(f).collect() into Vec / HashSet (R-MAPCOLLECT), iter().flat_map(f).collect() (R-FLATMAP), into_iter().collect::<HashMap>() (vx_pairs_into_map); <[T]>::sort is a rearrangement; AkdLabel obeys the HashMap key model; a stored epoch is < u64::MAX and stored versions are < u64::MAX",
                     "the independent canonical-trie computation in replay/exports (written from the statement; shares only the hash primitives and the VRF with the code under test)"],
         "assumed": [],
     },
     "C02": {
         "verus": [("directory_lookup", ["Directory.lookup", "Directory.lookup_with_info", "Directory.get_lookup_info", "Directory.build_lookup_info", "Directory.derive_commitment_key",
-                                        "Directory.batch_lookup", "lemma_the_info", "get_marker_version", "Azks.get_latest_epoch"]), ("verify_lookup", ["lookup_verify"]), "azks_proofs"],
+                                        "Directory.batch_lookup", "lemma_the_info", "get_marker_version", "Azks.get_latest_epoch"]), ("verify_lookup", ["lookup_verify"]), "azks_proofs",
+                  ("directory_publish", ["Directory.publish__head", "Directory.publish__tuples", "Directory.publish__tuples_for", "lemma_all_tuples_step", "lemma_labels_step", "lemma_distinct_iff", "lemma_multiset_same_set"])],
         "search": True,
         "always_search": True,
         "bounded_search": [{"obligation": "replay/c0203#all_answers",
@@ -129,17 +134,22 @@ PROPS = {
                  "proofs' bytes, membership proofs of the existent and marker labels, the non-membership proof of the stale label, value/version/epoch of the selected state, and the commitment nonce of "
                  "(key-derived commitment key, node label of the fresh VRF proof, version, value). Not decided: that the tree contains these leaves (C01), that the NON-membership proof's prefix conditions hold for the honest anchor "
                  "(the fold-to-root part of C05 completeness is proved in unit azks_proofs), lock discipline against the poller. batch_lookup: per label, in order, the answer is assembled from THE lookup info of (label, epoch of the one epoch record read) by the same lookup_with_info, "
-                 "and its assert_eq! can never fail (R-ASSERTEQ turns it into an obligation).",
+                 "and its assert_eq! can never fail (R-ASSERTEQ turns it into an obligation). "
+                 "The VERSION rule (head of Directory::publish, R-SEGMENT + R-FLATMAP: the flat_map closure hoisted verbatim and verified as a function, the adapter chain as a loop): a batch turns into "
+                 "exactly the in-order concatenation, per (label, value), of: a label without a stored state -> (Fresh, 1); a label whose stored latest value EQUALS the submitted one -> nothing "
+                 "(no version, the version counts distinct successive values); otherwise (Stale, v), (Fresh, v+1) for the stored latest version v.",
         "trusted": ["T4 the VRF as functions of (key storage, label, freshness, version); R-UFCS rewrites `self.vrf.m(..)` into free-function stubs (the VRF trait has async methods)",
                     "T6 results of storage / tree reads are functions of what one request sees (user_state, mem_proof, nonmem_proof, root_hash_of, azks_read)",
                     "Directory is a model struct with the fields these functions touch; R-UTF8 makes the error-message choice opaque; the greedy preload only warms the cache (external)",
                     "<[T]>::to_vec is an element-wise clone (assumed std contract)"],
-        "assumed": ["stored versions are >= 1 (precondition R_versions; `64 - leading_zeros(0) - 1` would underflow)"],
+        "assumed": ["stored versions are >= 1 (precondition R_versions; `64 - leading_zeros(0) - 1` would underflow) and < u64::MAX (`latest_version + 1` in publish)",
+                    "std's slice iter().flat_map(f).collect() is the in-order concatenation of f's results (R-FLATMAP); AkdLabel's Hash/Eq obey the HashMap key model"],
     },
     "C03": {
         "verus": [("directory_lookup", ["Directory.create_single_update_proof", "Directory.key_history__head", "Directory.key_history__tail", "Directory.derive_commitment_key", "lemma_min_max",
                                         "lemma_mask_is_filter", "Azks.get_latest_epoch"]),
-                  ("verify_history", ["verify_single_update_proof", "verify_with_history_params", "lemma_consecutive"]), "azks_proofs"],
+                  ("verify_history", ["verify_single_update_proof", "verify_with_history_params", "lemma_consecutive"]), "azks_proofs",
+                  ("directory_publish", ["Directory.publish__tuples", "Directory.publish__tuples_for", "lemma_all_tuples_step"])],
         "search": True,
         "always_search": True,
         "bounded_search": [{"obligation": "replay/c0203#all_answers",
